@@ -160,7 +160,7 @@ func c16R1(c *Ctx) {
 				c.ok(rule, key, pos, ml.how+": order-sensitive effect under a len(m) == 1 guard ("+strings.Join(problems, "; ")+")", true)
 				continue
 			}
-			if why, ok := c16Table[c.fnName(fn)]; ok {
+			if why, ok := c.tabledS(c16Table, fn, ""); ok {
 				c.ok(rule, key, pos, "tabled: "+why+" ["+strings.Join(problems, "; ")+"]", false)
 				continue
 			}
@@ -409,7 +409,7 @@ func c16R2(c *Ctx) {
 			}
 			cnt[c.fnName(fn)]++
 			key := fmt.Sprintf("ambient:%s#%d", c.fnName(fn), cnt[c.fnName(fn)])
-			if why, ok := c16AmbientTable[c.fnName(fn)]; ok {
+			if why, ok := c.tabledS(c16AmbientTable, fn, ""); ok {
 				c.ok(rule, key, c.instrPos(r.I), "tabled: "+why, false)
 				return
 			}
